@@ -266,21 +266,4 @@ theorem idless_interface_used :
           d.types.resources.map (·.alias.map (·.source)) == [none, some 0]
       | _ => false) = true := by decide +kernel
 
-theorem findOwner_mem (w : WTypes) (owners : List (WAny × (Owner × Str))) :
-    ∀ (fuel : Nat) (a : WAny) (o : Owner × Str), findOwner w owners fuel a = some o →
-      ∃ a', lookup owners a' = some o := by
-  intro fuel
-  induction fuel with
-  | zero => intro a o h; simp [findOwner] at h
-  | succ n ih =>
-    intro a o h
-    simp only [findOwner] at h
-    split at h
-    · rename_i o' ho
-      cases h
-      exact ⟨a, ho⟩
-    · split at h
-      · exact ih _ _ h
-      · cases h
-
 end Wac.Props.C08
